@@ -144,6 +144,36 @@ def reverse_job(lo, hi):
                          {'kind': 'text', 'source': prelude + lines[j] + '\n', 'halfword': h})
             else:
                 res.nontrivial_count += 1
+    # the same lines with the mnemonic in upper / capitalised case, c.lw / c.sw also in the imm(reg) syntax
+    for i in range(0, len(legal), 1000):
+        chunk = legal[i:i + 1000]
+        lines = []
+        for k, (h, mn, f) in enumerate(chunk):
+            head = mn.upper() if (h + k) % 3 == 0 else mn.capitalize() if (h + k) % 3 == 1 else mn
+            if mn in ('c.lw', 'c.sw') and (h >> 2) % 2:
+                a_, b_ = ('rd', 'rs1') if mn == 'c.lw' else ('rs2', 'rs1')
+                lines.append('%s x%d, %d(x%d)' % (head, f[a_], f['imm'], f[b_]))
+            else:
+                lines.append((head + ' ' + ', '.join(str(f[n]) if n == 'imm' else 'x%d' % f[n] for n in rvref.C_OPERANDS[mn])).strip())
+        res.evaluations += len(chunk)
+        try:
+            out = bytes(asm.assemble('\n'.join(lines) + '\n'))
+        except Exception as e:
+            out = None
+        for j, (h, mn, f) in enumerate(chunk):
+            if out is not None and len(out) == 2 * len(chunk):
+                got = struct.unpack_from('<H', out, 2 * j)[0]
+            else:
+                try:
+                    o = bytes(asm.assemble(lines[j] + '\n'))
+                    got = struct.unpack('<H', o)[0] if len(o) == 2 else o.hex()
+                except Exception as e:
+                    got = 'refused: ' + str(e)[-120:]
+            if got != h:
+                res.fail('reverse:case:%s' % mn, '%r (mnemonic case / imm(reg) variant of the canonical text) gives %r, legal halfword is 0x%04x' % (lines[j], got, h),
+                         {'kind': 'text', 'source': lines[j] + '\n', 'halfword': h})
+            else:
+                res.nontrivial_count += 1
     if legal:
         h, mn, f = legal[len(legal) // 2]
         res.sample({'reverse': '0x%04x' % h, 'text': canonical_text(mn, f)})
@@ -274,7 +304,7 @@ def run(tier):
     chk.extra['legal_halfwords'] = legal
     chk.rule = ('forward: complete product registers 0..31 x immediates in [lo-2*span, hi+2*span] per c.* mnemonic through the '
                 'encoder API, in the normal interpreter and again in `python -O` children (thorough: also through the text front end); reverse: all 65,536 halfwords, canonical text of every '
-                'LEGAL one assembled; legal immediates of every c.* mnemonic also written as arithmetic expressions (a + b, a * b, with a constant, shifts ...). non-trivial = accepted tuples + legal halfwords (distinct by construction)')
+                'LEGAL one assembled (also with registers through alias constants, and with the mnemonic in upper / capitalised case and c.lw / c.sw in the imm(reg) syntax); legal immediates of every c.* mnemonic also written as arithmetic expressions (a + b, a * b, with a constant, shifts ...). non-trivial = accepted tuples + legal halfwords (distinct by construction)')
     chk.assumptions = ['rvref.dec16/enc16 transcribed from the RVC chapter; 28,461 legal non-hint RV32C integer halfwords']
     return chk.finish()
 
